@@ -23,3 +23,5 @@ def run(P, R, tier):
     cache.run_all(P, R)
     from ..engines import memo, own as owneng
     memo.check_class(P, R, owneng.Own(P), "GMMMachine")
+    from ..engines import traps as _traps
+    _traps.check(P, R, ['gmm'], scope='gmm:GMMMachine\\.(variances|weights|variance_thresholds|g_norms|log_weights|means|fit|__init__|initialize_gaussians)\\b')
